@@ -66,3 +66,17 @@ func VerifC12RunID() {
 		zzverif.Reach("C12.runid.short-reads")
 	}
 }
+
+// VerifC07ConstantTimeEq: the comparison used for tokens, signatures and passwords says "equal"
+// exactly for identical strings: same length, same bytes (NUL bytes and prefixes included).
+func VerifC07ConstantTimeEq() {
+	a := zzverif.StringUpTo("a", 3, "a\x00")
+	b := zzverif.StringUpTo("b", 3, "a\x00")
+	got := ConstantTimeEqString(a, b)
+	same := len(a) == len(b) && zzverif.StrEq(a, b)
+	zzverif.Assert(zzverif.Iff(got, same), "C07.consteq.equal-iff-identical")
+	if len(a) != len(b) {
+		zzverif.Reach("C07.consteq.different-lengths")
+	}
+	zzverif.Reach("C07.consteq.done")
+}
